@@ -181,10 +181,8 @@ class C01(ProgramProperty):
                     if x.get('range'):
                         s0 = x['range'][0]
                         m = re.match(rb'(match|case)\b', data[s0:s0 + 6])
-                        if m:
-                            rest = re.split(rb'[\r\n]', data[s0:], 1)[0] if b'(' not in data[s0:x['range'][1]] else data[s0:x['range'][1] + 200]
-                            if b':' in rest:
-                                found.append(s0)
+                        if m and top_level_colon(data[s0:].decode('utf-8', 'replace')):
+                            found.append(s0)
                 for v in x.values():
                     walk(v)
             elif isinstance(x, list):
@@ -217,6 +215,33 @@ class C01(ProgramProperty):
         if 'C01-F6' in ids and sig == 'rejects_valid' and re.search(r'''[fF][rR]?(['"]).*\{[^}]*('{3}|"{3})''', t, re.S):
             return 'C01-F6'
         return None
+
+
+def top_level_colon(rest):
+    """is there a ':' outside all brackets (and outside string literals) before the end of this logical line?"""
+    from ..gen.invalid import TOKEN_RE
+    depth = 0
+    lambdas = 0
+    first = True
+    for m in TOKEN_RE.finditer(rest):
+        t = m.group(0)
+        if t in ('(', '[', '{'):
+            depth += 1
+        elif t in (')', ']', '}'):
+            depth -= 1
+        elif t == 'lambda' and depth == 0:
+            lambdas += 1
+        elif t == ':' and depth == 0 and lambdas > 0:
+            lambdas -= 1
+        elif t == ':' and depth == 0 and not first:
+            return True
+        elif depth <= 0 and ('\n' in t or '\r' in t) and t.strip() == '':
+            return False
+        elif t == ';' and depth == 0:
+            pass  # the logical line goes on after ';'
+        if t.strip():
+            first = False
+    return False
 
 
 def trim(x, n=400):
